@@ -1,7 +1,7 @@
 SPECIFICATION Spec
 CONSTANTS
   Shapes <- ShapesC39
-  MaxBlocks = 1
+  MaxBlocks = 2
   Paths <- AllPaths
   Muts <- Single
   PreKinds <- NoKinds
